@@ -205,7 +205,15 @@ claim('C09',
       'points, compares in every feasible region (sign of the projection t and of |d|^2-t) the '
       'squared distance form of that region with tolerance^2, strictly, and returns True only '
       'when all interior points passed; max_dist_from_n_points is max over interior points of '
-      'ffgeom.Segment(first,last).distanceToPoint. Not decided: floating point.',
+      'ffgeom.Segment(first,last).distanceToPoint. D5 (bounded, independent of how the loops are '
+      'written or which helper deletes): supersample interpreted on lists of 0..6 (thorough: 8) '
+      'distinct vertex objects with both answers of the predicate followed at every call; the '
+      'decision tree is evaluated with exact integer geometry on a family of concrete lists '
+      '(patterns incl. reversals, repeated points, closing segments) and must leave an in-order '
+      'subsequence keeping both ends with every deleted vertex closer than the tolerance to the '
+      'segment between its surviving neighbours; a report carries the list. When the affine rule '
+      'D3 does not fit the shape of the code the index clauses rest on D5 alone, i.e. on lists up '
+      'to that length (the evidence says so). Not decided: floating point.',
       'Trusted: Python ast, list slicing semantics, ink_extensions.ffgeom.Segment.distanceToPoint '
       'as the Euclidean point-to-segment distance, vf/interp.py, vf/poly.py.',
       'DESIGN.md section 3, C09')
@@ -229,7 +237,11 @@ claim('C04',
       'failing close(). D7: a failing exchange (device error reply, unexpected reply, timeout, '
       'USB exception) ends with an error recorded and the failure value - the verdicts of the '
       'C05 exchange analysis on the primitives, taken over per construct (skipped when that '
-      'analysis cannot be carried out on the tree). Because each method is decided from every state, the statement follows '
+      'analysis cannot be carried out on the tree); likewise the handshake verdicts of the C15 '
+      'connect analysis (True only for a verified device whose version passed the minimum test, '
+      'every other handshake records an error, an earlier error survives connect) - '
+      '"unsupported firmware" is the fifth kind of error and only connect records it. '
+      'Because each method is decided from every state, the statement follows '
       'for every sequence of calls by induction on the history. Not decided: behaviour of the '
       'pyserial object itself.',
       'Trusted: Python ast, vf/interp.py, vf/ebb3.py; assumption: the serial object is reached '
@@ -250,7 +262,7 @@ claim('C05',
       'no instance field with earlier requests besides the connection typestate (R-STATE: the '
       'wait budget is per request). D3/D4 over 4 request '
       'kinds (one letter, one letter + arguments, two letters, letter + digit such as T3) x representative lengths x 7 reply classes: the request name is the first / first / '
-      'first two / first two characters; success exactly for a non-empty right-name reply without "Err:"; '
+      'first two / first two characters of the TRIMMED request (a name cut from the untrimmed text is reported: the quantifier includes surrounding whitespace); success exactly for a non-empty right-name reply without "Err:"; '
       'command returns True/False in step with err; query returns the reply minus name and one '
       'comma (never indexing past a bare-name reply) or None with err recorded; when a line '
       'arrives at the first read exactly one read is performed (a non-empty line is never read '
@@ -284,7 +296,11 @@ claim('C06',
       'exactly d and stays >=0 (or d is the whole remainder and the loop ends), so the durations '
       'sum to n; nothing is sent outside the loop. D6 doLowLevelMove is suppressed exactly when '
       'neither axis can move, over all 64 zero/non-zero cases (tests on compound expressions are '
-      'explored on both branches). D7 no helper reaches a live transport without a port. Not '
+      'explored on both branches). D7 no helper reaches a live transport without a port. D8 no '
+      'port use after disconnect (shared with C04); D9 the QE decode table; D10 the command '
+      'sequence of motors_enable per (clamped request, reported board state): CU,50,0 / QE / the '
+      'preliminary EM,r,r exactly when the reported resolution differs / EM,r1,r2 (the case table '
+      'of C16-D5). Not '
       'decided: that the documented rows are what the firmware expects (transcribed table).',
       'Trusted: Python ast, str.format/f-string semantics as modelled in vf/interp.py, '
       'vf/legacy.py, vf/ebb3.py, the SPEC rows in vf/props/c06.py (from the EBB command reference '
